@@ -146,12 +146,14 @@ class DataTypeBuilder(_parser.StatementStreamProcessor):
 
     def on_constant(self, constant_type: _serializable.SerializableType, name: str, value: _expression.Any) -> None:
         self._on_attribute()
+        _serializable.Constant(constant_type, name, value)  # Validate now: the queued attribute is committed later.
         self._queue_attribute(
             lambda doc: self._structs[-1].add_constant(_serializable.Constant(constant_type, name, value, doc))
         )
 
     def on_field(self, field_type: _serializable.SerializableType, name: str) -> None:
         self._on_attribute()
+        _serializable.Field(field_type, name)  # Validate now: the queued attribute is committed later.
         self._queue_attribute(lambda doc: self._structs[-1].add_field(_serializable.Field(field_type, name, doc)))
 
     def on_padding_field(self, padding_field_type: _serializable.VoidType) -> None:
